@@ -16,7 +16,11 @@ parameter of the helper (defaults of the helper resolved), and the helper's clip
 passes with the default, an explicitly given and a plug-in supplied `usable_width`) must make the REAL helper reproduce the real
 `usable_cross_section`, and sample points of the opening followed through the generated steps must be kept / discarded as
 the real polygon contains them or not.
-The independent oracle checks the property text on the real objects - also on passes one of whose quantities (usable_width,
+(d) where the placed vertex list comes from (`Roll.contour_line`, every implementation on `Roll.contour_points`) and the
+statements of `refine_cross_section` are re-read into Gen/C09Roll.lean (forms outside the subset become `.opaque` terms on which
+the theorems fail).
+The independent oracle checks the property text on the real objects - under the default and under non-default configuration
+values (`_config`), on rolls carrying explicitly given values (`_random_roll`) - also on passes one of whose quantities (usable_width,
 gap, height, inscribed_circle_diameter) reaches the pass on another route of the hook system than the usual one (explicit
 value, explicit callable, assignment, implementation registered on a throw-away subclass, ...; see `_make_pass`).
 """
@@ -32,7 +36,7 @@ from ..core import LEAN_DIR
 ID = "C09"
 LEAN_MODULES = ["PyrollProps.C09"]
 MODEL = "c09"
-MODEL_MODULES = ["PyrollModel.Gen.C09", "PyrollModel.Gen.C09Contours", "PyrollModel.PassGeomDriver"]
+MODEL_MODULES = ["PyrollModel.Gen.C09", "PyrollModel.Gen.C09Contours", "PyrollModel.Gen.C09Roll", "PyrollModel.PassGeomDriver"]
 RULE = ("every groove class (20 parametric classes from a catalogue of feasible parameter sets, lengths scaled log-uniformly, "
         "radii/depth jittered; SplineGroove with random symmetric polylines) x pad angle matching the roll count (0 deg "
         "two rolls, 30 deg three) x gap log-uniform 1e-4..0.5 of the groove width and exactly 0 x each given member "
@@ -45,7 +49,11 @@ RULE = ("every groove class (20 parametric classes from a catalogue of feasible 
         "to the default, 0.3-1 of it, or - gap > 0 - beyond it as far as the roll faces reach) as constructor value / callable / "
         "assignment / implementation on a throw-away subclass / explicit over such an implementation; the given member as "
         "callable / assignment / implementation on a throw-away subclass; a throw-away subclass without implementations; the "
-        "roll an instance of a throw-away Roll subclass or with explicitly given contour points. non-trivial = "
+        "roll an instance of a throw-away Roll subclass or with explicitly given contour points (the groove's, or with the "
+        "faces continued along the face line), a barrel width narrower / equal / wider than the contour (value / assignment / "
+        "plug-in), max radius / nominal diameter x with probability 0.3 non-default configuration values for the duration of "
+        "the case (PROFILE_CONTOUR_REFINEMENT 1..1000, GROOVE_RADIUS_POINT_COUNT 5..60, GROOVE_PADDING, "
+        "ROLL_SURFACE_DISCRETIZATION_COUNT), grooves with explicit face padding. non-trivial = "
         "gap > 0 or a derived member given; distinct by (class, rounded parameters, gap, given, order[, looks | route]).")
 ASSUMPTIONS = [
     "shapely/GEOS: translate/rotate act vertex-wise with the arithmetic modelled in PassGeom.rotPt (validated vertex by vertex "
@@ -229,8 +237,35 @@ def translate(ctx):
     ctx.notes.setdefault("generated", {})["Gen/C09Contours.lean"] = {
         "placements": {w: [n for n, _ in placements[w].lines] for w in placements},
         "clip_impls": sorted(clip_impls), "rewritten": changed}
+    # (d) where the placed vertex list comes from (`Roll.contour_line`, the implementations on `Roll.contour_points`) and what
+    # `refine_cross_section` does to the answer of the cross-section helpers: Gen/C09Roll.lean.  Forms outside the subset are
+    # emitted as `.opaque` terms - the theorems about the generated terms then fail to build (and the gap is listed)
+    core_dir = os.path.join(gen.REPO, "pyroll", "core")
+    try:
+        roll_src = cc.extract_roll_source(core_dir)
+    except (OSError, SyntaxError, pyexpr.Untranslatable) as ex:
+        roll_src = {"contour_line": ("opaque", f"unreadable: {ex}"[:120]), "contour_line_lineno": 0, "impls": []}
+    try:
+        refine = cc.extract_refine(core_dir)
+    except (OSError, SyntaxError) as ex:
+        refine = (0, [("opaque", f"unreadable: {ex}"[:120])])
+    for what, src in [("Roll.contour_line", roll_src["contour_line"])] + [(f"{fn} on Roll.contour_points", sr) for fn, _, sr in roll_src["impls"]]:
+        if src[0] == "opaque":
+            ctx.tie_breaks.append(f"translator: {what} (pyroll/core/roll) is outside the translatable subset: {src[1]}")
+    if not roll_src["impls"]:
+        ctx.tie_breaks.append("translator: no implementation registered on Roll.contour_points (pyroll/core/roll/hookimpls.py)")
+    for st in refine[1]:
+        if st[0] == "opaque":
+            ctx.tie_breaks.append(f"translator: refine_cross_section (pyroll/core/profile/profile.py) has a statement outside the "
+                                  f"translatable subset: {st[1]}")
+    helper_returns = sorted({(h.fn, getattr(h, "returns_through", "<untranslatable>")) for (_, h) in cs_calls.values()})
+    changed = pyexpr.write_if_changed(os.path.join(LEAN_DIR, "PyrollModel", "Gen", "C09Roll.lean"),
+                                      cc.lean_roll_module(roll_src, refine, helper_returns))
+    ctx.notes.setdefault("generated", {})["Gen/C09Roll.lean"] = {
+        "roll_contour_line": roll_src["contour_line"][0], "contour_points_impls": [fn for fn, _, _ in roll_src["impls"]],
+        "refine_steps": [st[0] for st in refine[1]], "rewritten": changed}
     ctx.c09 = {"per": per, "clip_impls": clip_impls, "placements": placements, "clips": all_clips, "clip_vars": clip_vars,
-               "cs_calls": cs_calls}
+               "cs_calls": cs_calls, "roll_src": roll_src}
 
 
 # --------------------------------------------------------------------------------------------------------------
@@ -337,6 +372,12 @@ def _random_groove(rng, which, ctx):
             kw["r1"] = 0 if rng.random() < 0.5 else kw["r1"] * rng.uniform(0.1, 1)
         kw = {k: (v if k in ANGLES else v * s) for k, v in kw.items()}
         kw["pad_angle"] = PAD[which]
+        if rng.random() < 0.2:
+            # the length of the faces is a parameter of the groove (default: Config.GROOVE_PADDING of the usable width)
+            if rng.random() < 0.7:
+                kw["rel_pad"] = rng.uniform(0.02, 0.9)
+            else:
+                kw["pad"] = kw.get("usable_width", 50 * s) * rng.uniform(0.02, 0.5)
         desc = {"cls": cls, "kwargs": kw}
     try:
         import warnings
@@ -346,6 +387,136 @@ def _random_groove(rng, which, ctx):
     except Exception as ex:          # an infeasible parameter set: not a case
         ctx.count("groove-rejected:" + type(ex).__name__)
         return None
+
+
+# --------------------------------------------------------------------------------------------------------------
+# configuration values the opening geometry reads
+# --------------------------------------------------------------------------------------------------------------
+# `pyroll.core.Config` values are legitimate inputs: the property is stated for the pass, not for the default configuration.
+# A case may run under non-default values (set for the duration of the case - groove construction included, the radii
+# discretisation is read there - and restored in `finally`):
+#   PROFILE_CONTOUR_REFINEMENT  0 (off) | >= 1: the cross-section helpers ask for more points on the SAME contour
+#   GROOVE_RADIUS_POINT_COUNT   how many vertices a radius of a generic elongation groove gets
+#   GROOVE_PADDING              relative face padding (read when the groove classes are defined; also given per groove as
+#                               `rel_pad` / `pad`, see `_random_groove`)
+#   ROLL_SURFACE_DISCRETIZATION_COUNT   the roll surface grid (must not reach the opening at all)
+CONFIG_KEYS = ["PROFILE_CONTOUR_REFINEMENT", "GROOVE_RADIUS_POINT_COUNT", "GROOVE_PADDING", "ROLL_SURFACE_DISCRETIZATION_COUNT"]
+
+
+class _config:
+    """context manager: Config values of `cfg` (dict | None) active inside, previous values restored afterwards"""
+
+    def __init__(self, cfg):
+        self.cfg = dict(cfg or {})
+        self.old = {}
+
+    def __enter__(self):
+        if self.cfg:
+            from pyroll.core import Config
+            for k in self.cfg:
+                if k not in CONFIG_KEYS:
+                    raise ValueError(f"not a configuration value of the opening geometry: {k}")
+            for k, v in self.cfg.items():
+                self.old[k] = getattr(Config, k)
+            for k, v in self.cfg.items():
+                setattr(Config, k, v)
+        return self
+
+    def __exit__(self, *exc):
+        if self.old:
+            from pyroll.core import Config
+            for k, v in self.old.items():
+                setattr(Config, k, v)
+        return False
+
+
+def _random_config(rng):
+    """a JSON-able dict of non-default configuration values (never empty)"""
+    cfg = {}
+    k = rng.random()
+    if k < 0.75:
+        f = rng.random()
+        cfg["PROFILE_CONTOUR_REFINEMENT"] = 1 if f < 0.2 else (rng.randrange(2, 12) if f < 0.55 else int(round(10 ** rng.uniform(1, 3))))
+    if k >= 0.55:
+        cfg["GROOVE_RADIUS_POINT_COUNT"] = rng.choice([5, 8, 13, 20, 37, 60])
+    if rng.random() < 0.2:
+        cfg["GROOVE_PADDING"] = rng.uniform(0.05, 0.6)
+    if rng.random() < 0.15:
+        cfg["ROLL_SURFACE_DISCRETIZATION_COUNT"] = rng.choice([7, 50, 200])
+    return cfg
+
+
+# --------------------------------------------------------------------------------------------------------------
+# explicitly given values on the roll
+# --------------------------------------------------------------------------------------------------------------
+# The pass reads its contour from the roll (`roll.contour_line` <- `roll.contour_points`); a Roll may carry explicitly given
+# values next to its groove: the width of the barrel (narrower than / equal to / wider than the contour of the groove, as
+# constructor value, by assignment or from an implementation on a throw-away Roll subclass), radii (nominal radius and a
+# larger maximum radius, nominal diameter instead of the radius) and the contour points themselves (the groove's, or the
+# groove's contour with the faces continued ALONG THE FACE LINE up to a wider barrel).  The property speaks of the faces of
+# neighbouring rolls - wherever they end - and of the opening between them: every clause applies unchanged.
+def _roll_name(roll_how):
+    return roll_how if isinstance(roll_how, str) else "-".join(str(roll_how.get(k)) for k in ("how", "rel", "via") if roll_how.get(k))
+
+
+def _random_roll(rng, which, groove):
+    """-> roll_how: a string (`plain`, `subclass`, `contour-points-given`) or a JSON-able dict with absolute values"""
+    import numpy as np
+    k = rng.random()
+    if k < 0.42:
+        return "plain"
+    if k < 0.50:
+        return "subclass"
+    if k < 0.58:
+        return "contour-points-given"
+    contour = np.array(groove.contour_points, dtype=float)
+    extent = 2 * float(np.abs(contour[:, 0]).max())
+    rel = rng.choice(["default", "contour", "narrower", "wider", "wider", "wider"])
+    f = {"default": None, "contour": 1.0, "narrower": rng.uniform(0.2, 0.999),
+         "wider": rng.choice([1 + 10 ** rng.uniform(-6, -1), rng.uniform(1.05, 4)])}[rel]
+    w = float(groove.width) if rel == "default" else extent * f
+    if k < 0.80:
+        return {"how": "width", "rel": rel, "via": rng.choice(["given", "given", "assigned", "plugin"]), "width": w}
+    if k < 0.90:
+        return {"how": "contour-points-extended", "rel": "wider", "width": extent * rng.choice([1 + 10 ** rng.uniform(-4, -1), rng.uniform(1.05, 3)])}
+    return {"how": "radii", "rel": rng.choice(["max-radius", "nominal-diameter"]), "factor": rng.uniform(1.0, 1.5)}
+
+
+def _build_roll(which, groove, roll_how):
+    import numpy as np
+    from pyroll.core import Roll
+    R = 10 * float(groove.usable_width)
+    if roll_how == "plain":
+        return Roll(groove=groove, nominal_radius=R)
+    if roll_how == "subclass":
+        return type("C09ThrowAwayRoll", (Roll,), {})(groove=groove, nominal_radius=R)
+    if roll_how == "contour-points-given":
+        return Roll(groove=groove, nominal_radius=R, contour_points=np.array(groove.contour_points, dtype=float))
+    how = roll_how["how"]
+    if how == "width":
+        w, via = roll_how["width"], roll_how.get("via", "given")
+        if via == "given":
+            return Roll(groove=groove, nominal_radius=R, width=w)
+        if via == "assigned":
+            roll = Roll(groove=groove, nominal_radius=R)
+            roll.width = w
+            return roll
+        cls = type("C09ThrowAwayRoll", (Roll,), {})
+        cls.width(lambda self, _w=w: _w)
+        return cls(groove=groove, nominal_radius=R)
+    if how == "contour-points-extended":
+        # the faces continued along the face line (pad angle of the roll count) up to the barrel edge
+        pts = np.array(groove.contour_points, dtype=float)
+        t = math.tan(math.radians(PAD[which]))
+        z_end = roll_how["width"] / 2
+        (z0, y0), (z9, y9) = pts[0], pts[-1]
+        ext = np.concatenate([[(-z_end, y0 + (z_end - abs(z0)) * t)], pts, [(z_end, y9 + (z_end - abs(z9)) * t)]])
+        return Roll(groove=groove, nominal_radius=R, contour_points=ext, width=roll_how["width"])
+    if how == "radii":
+        if roll_how["rel"] == "max-radius":
+            return Roll(groove=groove, nominal_radius=R, max_radius=R * roll_how["factor"])
+        return Roll(groove=groove, nominal_diameter=2 * R)
+    raise ValueError(f"unknown roll description {roll_how!r}")
 
 
 def _fresh(which, groove, **given):
@@ -514,11 +685,27 @@ def _oracle_geometry(ctx, which, groove, gap, rp, replay, kp="", cl=None):
                 ctx.violation(kp + "three-roll-face-separation", f"faces of contours {i},{j} are not parallel at distance gap={gap}",
                               replay)
                 break
+    # separated by EXACTLY the gap everywhere along the faces, wherever they end: no point of a roll contour (vertex or not,
+    # face extension included) comes closer to the neighbouring roll than the gap, and the faces do come that close
+    from shapely.geometry import LineString
+    try:
+        ls = [LineString(ln) for ln in lines]
+        pairs = [(0, 1)] if which == "two" else [(0, 1), (1, 2), (2, 0)]
+        for i, j in pairs:
+            dmin = float(ls[i].distance(ls[j]))
+            if not abs(dmin - gap) <= tol:
+                ctx.violation(kp + f"{which}-roll-closest-approach", f"contours {i},{j} come as close as {dmin} to each other, "
+                              f"gap={gap}", replay)
+                break
+    except ImportError:
+        raise
+    except Exception as ex:          # GEOS cannot measure it (degenerate line): counted, no verdict
+        ctx.count("closest-approach-not-evaluable:" + type(ex).__name__)
     return lines
 
 
-def _oracle_usable_cs(ctx, which, rp, uw_pass, replay, kp=""):
-    """usable cross-section: spans exactly the usable width, has the symmetry of the pass"""
+def _oracle_usable_cs(ctx, which, rp, uw_pass, replay, kp="", height=None, hdisc=0.0):
+    """usable cross-section: spans exactly the usable width, reaches the height of the pass, has the symmetry of the pass"""
     import numpy as np
     from shapely import make_valid
     from shapely.affinity import rotate
@@ -531,6 +718,21 @@ def _oracle_usable_cs(ctx, which, rp, uw_pass, replay, kp=""):
                           f"usable_cross_section raised {type(ex).__name__}: {ex}"[:200], replay)
             return
         raise
+    if ucs.geom_type == "Polygon" and ucs.is_empty and replay.get("gap") == 0:
+        # a CLOSED opening (flat barrels touching all along: the region between the contours has no area) has no cross-section
+        # to speak of: pyroll answers a zero-area ring under the default configuration and - GEOS' segmentize of such a ring -
+        # an empty polygon with PROFILE_CONTOUR_REFINEMENT >= 1.  Counted, no verdict (see notes/C09.md, observations)
+        try:
+            from shapely import Polygon as _Polygon
+            ls0 = _lines_of(rp.contour_lines)
+            whole = _Polygon(np.concatenate(ls0))
+            sc0 = max(float(np.abs(np.concatenate(ls0)).max()), 1e-300)
+            if whole.area <= 1e-18 * sc0 * sc0:
+                ctx.count("usable-cs-empty-on-closed-opening")
+                return
+        except Exception as ex:
+            if not (isinstance(ex, _Malformed) or _in_pyroll(ex)):
+                raise
     if ucs.geom_type != "Polygon" or ucs.is_empty:
         ctx.violation(kp + f"{which}-usable-cs-not-a-polygon", f"usable_cross_section is a {ucs.geom_type} "
                       f"(empty={ucs.is_empty}) instead of one polygon", replay)
@@ -553,6 +755,34 @@ def _oracle_usable_cs(ctx, which, rp, uw_pass, replay, kp=""):
                               f"usable width/2 = {uw_pass / 2}", replay)
                 break
         turn = 120
+    # ... and it is the opening between the rolls within the usable width: towards every groove bottom it reaches as far as
+    # the roll contour does there (every contour vertex strictly inside the usable-width cuts is a point of its boundary),
+    # and no further than half the height of the pass
+    try:
+        lines = _lines_of(rp.contour_lines)
+    except Exception as ex:
+        if not (isinstance(ex, _Malformed) or _in_pyroll(ex)):
+            raise
+        lines = None
+    if lines is not None and math.isfinite(uw_pass):
+        gdirs = [(math.cos(math.radians(g)), math.sin(math.radians(g))) for g in ((0, 180) if which == "two" else (90, 210, 330))]
+        allv = np.concatenate(lines)
+        inside = np.ones(len(allv), dtype=bool)
+        for dx, dy in gdirs:
+            inside &= (allv[:, 0] * dx + allv[:, 1] * dy) <= uw_pass / 2 - 1e-7 * scale
+        for b in ((90, 270) if which == "two" else (30, 150, 270)):
+            dx, dy = math.cos(math.radians(b)), math.sin(math.radians(b))
+            ext = float((v[:, 0] * dx + v[:, 1] * dy).max())
+            if inside.any():
+                want = float((allv[inside, 0] * dx + allv[inside, 1] * dy).max())
+                if ext < want - tol:
+                    ctx.violation(kp + "usable-cs-height", f"towards the groove bottom at {b} degrees the usable cross-section "
+                                  f"reaches {ext}, the roll contour within the usable width reaches {want}", replay)
+                    break
+            if height is not None and ext > height / 2 + tol + hdisc:
+                ctx.violation(kp + "usable-cs-height", f"towards the groove bottom at {b} degrees the usable cross-section "
+                              f"reaches {ext}, beyond half the height {height} of the pass", replay)
+                break
     a = ucs.area
     if a > 0:
         try:
@@ -648,6 +878,7 @@ def _late_case(ctx, which, groove, gap, vals, uw_pass, tolv, replay0, given, loo
         # the height is the extent of the opening (same measurement and tolerance as on the reference pass)
         contour = np.array(groove.contour_points, dtype=float)
         uw, depth = float(groove.usable_width), float(groove.depth)
+        disc = float("inf")
         if which == "two" and len(lines) == 2:
             disc = 2 * abs(depth - float(contour[:, 1].max()))
             ext = float(lines[0][:, 1].max() - lines[1][:, 1].min())
@@ -663,7 +894,8 @@ def _late_case(ctx, which, groove, gap, vals, uw_pass, tolv, replay0, given, loo
                 ctx.violation(kp + "three-roll-height-extent", f"height {vals['height']} but the lower groove bottom is at "
                               f"-{bottom}", replay)
         if do_cs and gap > 0:
-            _oracle_usable_cs(ctx, which, rp, uw_pass, dict(replay, read="usable_cross_section"), kp=kp)
+            _oracle_usable_cs(ctx, which, rp, uw_pass, dict(replay, read="usable_cross_section"), kp=kp, height=vals["height"],
+                              hdisc=tolv + disc)
     except _ImplRaised as ex:
         ctx.violation(f"{kp}{which}-hook-raises", f"pass looked at ({looks}) before {given} was assigned: {ex}"[:300], replay)
 
@@ -705,7 +937,6 @@ def _late_k(ctx, which, groove, vals, tolv, replay0, given, looks, order, lean_l
 # contour points as an explicitly given value (equal to the groove's).
 ROUTES_UW = ["explicit", "explicit", "explicit-callable", "assigned", "plugin", "plugin", "explicit-over-plugin"]
 ROUTES_MEMBER = ["explicit-callable", "assigned", "plugin", "plugin"]
-ROLL_HOW = ["plain", "plain", "plain", "plain", "subclass", "contour-points-given"]
 
 
 def _make_pass(which, groove, route, roll_how="plain", **given):
@@ -713,9 +944,7 @@ def _make_pass(which, groove, route, roll_how="plain", **given):
     import numpy as np
     from pyroll.core import Roll, TwoRollPass, ThreeRollPass
     base = TwoRollPass if which == "two" else ThreeRollPass
-    roll_cls = type("C09ThrowAwayRoll", (Roll,), {}) if roll_how == "subclass" else Roll
-    roll_kw = {"contour_points": np.array(groove.contour_points, dtype=float)} if roll_how == "contour-points-given" else {}
-    roll = roll_cls(groove=groove, nominal_radius=10 * float(groove.usable_width), **roll_kw)
+    roll = _build_roll(which, groove, roll_how)
     how = route["how"] if route else "explicit"
     hook = route["hook"] if route else None
     cls = base
@@ -744,10 +973,10 @@ def _make_pass(which, groove, route, roll_how="plain", **given):
     return rp
 
 
-def _random_route(rng, which, given, gap, uw_pass, lines):
+def _random_route(rng, which, given, gap, uw_pass, lines, groove):
     """-> (route, roll_how); the value of a member route is filled in by the caller"""
     import numpy as np
-    roll_how = rng.choice(ROLL_HOW)
+    roll_how = _random_roll(rng, which, groove)
     k = rng.random()
     if k < 0.12 or not math.isfinite(uw_pass):
         return {"hook": None, "how": "subclass", "value": None}, roll_how
@@ -782,9 +1011,11 @@ def _route_case(ctx, which, groove, gap, vals, uw_pass, tolv, replay0, given, ro
         route = dict(route, value=vals[given])
     replay = dict(replay0, provenance=dict(route, roll=roll_how), given=given, value=vals[given], order=list(order))
     ctx.count(f"route:{how}:{hook or '-'}")
-    ctx.count("route-roll:" + roll_how)
+    ctx.count("route-roll:" + _roll_name(roll_how))
     ctx.case([which, replay0["groove"]["cls"], round(gap / float(groove.usable_width), 9), "route", how, hook,
-              None if route["value"] is None else round(route["value"] / float(groove.usable_width), 9), roll_how, given, order])
+              None if route["value"] is None else round(route["value"] / float(groove.usable_width), 9), _roll_name(roll_how),
+              None if isinstance(roll_how, str) or "width" not in roll_how else round(roll_how["width"] / float(groove.usable_width), 9),
+              given, order])
     depth = float(groove.depth)
     contour = np.array(groove.contour_points, dtype=float)
     try:
@@ -871,7 +1102,9 @@ def _route_case(ctx, which, groove, gap, vals, uw_pass, tolv, replay0, given, ro
                               f"-{bottom}", replay)
         if do_cs and (gap > 0 or which == "two"):
             # the usable cross-section spans exactly the usable width OF THE PASS (uw_own), on whichever route it came
-            _oracle_usable_cs(ctx, which, rp, uw_own, dict(replay, read="usable_cross_section"), kp=kp)
+            dflt = hook != "usable_width" and len(lines) == (2 if which == "two" else 3)
+            _oracle_usable_cs(ctx, which, rp, uw_own, dict(replay, read="usable_cross_section"), kp=kp,
+                              height=ref_vals["height"] if dflt else None, hdisc=(tolv + disc) if dflt else 0.0)
             if lean_lines is not None and cs_call is not None and gap > 0 and (modelled or hook is None or hook in members):
                 _cs_k(ctx, which, rp, uw_own, mcls, in_dict, env0, cs_call, replay, lean_lines, lean_expect)
     except _ImplRaised as ex:
@@ -949,7 +1182,9 @@ def _model_chain(per_which, hook, mro):
 
 
 def _one_case(ctx, which, desc, groove, gap, lean_lines, lean_expect, do_cs=True, full_k=True, pre=None, late=None,
-              prov=None):
+              prov=None, cfg=None, rolls=()):
+    """`cfg`: the non-default configuration values active for this case (the CALLER holds them active through `_config`; they
+    are recorded in every replay); `rolls`: roll descriptions put through the route case with nothing else overridden"""
     import numpy as np
     cs_calls = (getattr(ctx, "c09", None) or {}).get("cs_calls")
     cs_call = cs_calls[which] if cs_calls else None
@@ -957,6 +1192,10 @@ def _one_case(ctx, which, desc, groove, gap, lean_lines, lean_expect, do_cs=True
     members = MEMBERS[which]
     uw, depth = float(groove.usable_width), float(groove.depth)
     replay0 = {"pass": which, "groove": desc, "gap": gap}
+    if cfg:
+        replay0["config"] = dict(cfg)
+        for k in cfg:
+            ctx.count("config:" + k)
     contour = np.array(groove.contour_points, dtype=float)
     scale = float(np.abs(contour).max())
     ctx.count(f"{which}:{desc['cls']}")
@@ -1001,7 +1240,8 @@ def _one_case(ctx, which, desc, groove, gap, lean_lines, lean_expect, do_cs=True
         if abs(vals["inscribed_circle_diameter"] - icd) > tolv:
             ctx.violation("three-roll-icd", f"inscribed circle diameter {vals['inscribed_circle_diameter']} != {icd}", replay0)
     if do_cs:
-        _oracle_usable_cs(ctx, which, ref, uw_pass, dict(replay0, read="usable_cross_section"))
+        _oracle_usable_cs(ctx, which, ref, uw_pass, dict(replay0, read="usable_cross_section"), height=vals["height"],
+                          hdisc=tolv + disc)
         # the same statement on a pass on which OTHER quantities of the opening were read first (the usable cross-section
         # spans exactly the usable width whatever was asked before: a clip remembered for another width must not answer)
         if gap > 0:
@@ -1013,7 +1253,8 @@ def _one_case(ctx, which, desc, groove, gap, lean_lines, lean_expect, do_cs=True
                 except _ImplRaised:
                     pass        # what these reads themselves answer is not C09's subject
             ctx.count("usable-cs-after:" + pre[0])
-            _oracle_usable_cs(ctx, which, rp2, uw_pass, dict(replay0, read="usable_cross_section", read_before=pre))
+            _oracle_usable_cs(ctx, which, rp2, uw_pass, dict(replay0, read="usable_cross_section", read_before=pre),
+                              height=vals["height"], hdisc=tolv + disc)
 
     # ---- K: placement vertex by vertex ---------------------------------------------------------------------------
     envline = "env " + " ".join(f"{k}={stub.bits(v)}" for k, v in
@@ -1083,11 +1324,16 @@ def _one_case(ctx, which, desc, groove, gap, lean_lines, lean_expect, do_cs=True
             route = {k: prov["provenance"].get(k) for k in ("hook", "how", "value")}
             roll_how, order = prov["provenance"].get("roll", "plain"), list(prov["order"])
         else:
-            route, roll_how = _random_route(ctx.rng, which, given, gap, uw_pass, lines)
+            route, roll_how = _random_route(ctx.rng, which, given, gap, uw_pass, lines, groove)
             order = ctx.rng.choice(all_orders)
         k_cs = model_k and (full_k or ctx.rng.random() < 0.35)
         _route_case(ctx, which, groove, gap, vals, uw_pass, tolv, replay0, given, route, roll_how, order, do_cs,
                     lean_lines if k_cs else None, lean_expect, cs_call)
+    # explicitly given values on the roll, nothing else overridden (the past-failure corpus goes through a fixed list)
+    for roll_how in rolls:
+        for given in (members if full_k else [ctx.rng.choice(members)]):
+            _route_case(ctx, which, groove, gap, vals, uw_pass, tolv, replay0, given, {"hook": None, "how": "subclass", "value": None},
+                        roll_how, list(members), do_cs, None, lean_expect, cs_call)
     if len(ctx.samples) < 3:
         ctx.sample({"pass": which, "groove": desc, "gap": gap, "derived": vals})
 
@@ -1133,7 +1379,8 @@ def _check_lean(ctx, lean_lines, lean_expect):
                 ctx.disagreement(f"usable cross-section: the model hands over {o[:80]!r} ({line})", replay)
                 continue
             try:
-                again = fn(rp, **kw)
+                with _config(replay.get("config")):
+                    again = fn(rp, **kw)
             except Exception as ex:
                 ctx.disagreement(f"usable cross-section: the real helper {helper_fn} raised {type(ex).__name__} on what the model "
                                  f"hands over ({kw})", replay)
@@ -1246,6 +1493,33 @@ def _check_order(ctx, per):
                 ctx.validated()
 
 
+CORPUS_CONFIGS = [
+    {"PROFILE_CONTOUR_REFINEMENT": 1},
+    {"PROFILE_CONTOUR_REFINEMENT": 7, "GROOVE_RADIUS_POINT_COUNT": 8},
+    {"PROFILE_CONTOUR_REFINEMENT": 300},
+    {"PROFILE_CONTOUR_REFINEMENT": 2, "GROOVE_RADIUS_POINT_COUNT": 37, "GROOVE_PADDING": 0.4, "ROLL_SURFACE_DISCRETIZATION_COUNT": 7},
+    {"PROFILE_CONTOUR_REFINEMENT": 50, "GROOVE_RADIUS_POINT_COUNT": 60},
+]
+
+
+def _corpus_rolls(which, groove):
+    """the roll descriptions every corpus entry goes through: barrel width equal to the default / to the contour / narrower /
+    wider (slightly and much) on every way of giving it, wider contour points, radii"""
+    import numpy as np
+    extent = 2 * float(np.abs(np.array(groove.contour_points, dtype=float)[:, 0]).max())
+    out = [{"how": "width", "rel": "default", "via": "given", "width": float(groove.width)},
+           {"how": "width", "rel": "contour", "via": "given", "width": extent},
+           {"how": "width", "rel": "narrower", "via": "given", "width": 0.5 * extent},
+           {"how": "width", "rel": "wider", "via": "given", "width": extent * (1 + 1e-3)},
+           {"how": "width", "rel": "wider", "via": "given", "width": extent * 1.25},
+           {"how": "width", "rel": "wider", "via": "assigned", "width": extent * 3},
+           {"how": "width", "rel": "wider", "via": "plugin", "width": extent * 1.25},
+           {"how": "contour-points-extended", "rel": "wider", "width": extent * 1.25},
+           {"how": "radii", "rel": "max-radius", "factor": 1.2},
+           {"how": "radii", "rel": "nominal-diameter", "factor": 1.0}]
+    return out
+
+
 def _sampler(rng, var):
     return math.exp(rng.uniform(-6, 1))
 
@@ -1269,20 +1543,28 @@ def run(ctx):
     n_cases = ctx.budget(150, 5000)
     done = 0
     try:
-        for (which, cls, kw, gf) in CORPUS:
+        for ci, (which, cls, kw, gf) in enumerate(CORPUS):
             kw = dict(kw, pad_angle=PAD[which])
             desc = {"cls": cls, "kwargs": kw}
             g = _build_groove(desc)
-            _one_case(ctx, which, desc, g, gf * float(g.usable_width), lean_lines, lean_expect)
+            _one_case(ctx, which, desc, g, gf * float(g.usable_width), lean_lines, lean_expect, rolls=_corpus_rolls(which, g))
+            # the same past failure under non-default configuration values (one fixed set per entry)
+            cfg = CORPUS_CONFIGS[ci % len(CORPUS_CONFIGS)]
+            with _config(cfg):
+                g = _build_groove(desc)
+                _one_case(ctx, which, desc, g, gf * float(g.usable_width), lean_lines, lean_expect, full_k=False, cfg=cfg)
         while done < n_cases:
             which = "two" if rng.random() < 0.45 else "three"
-            r = _random_groove(rng, which, ctx)
-            if r is None:
-                continue
-            desc, g = r
-            uw = float(g.usable_width)
-            gap = 0.0 if rng.random() < 0.15 else uw * 10 ** rng.uniform(-4, math.log10(0.5))
-            _one_case(ctx, which, desc, g, gap, lean_lines, lean_expect, full_k=done < 8)
+            cfg = _random_config(rng) if rng.random() < 0.3 else None
+            with _config(cfg):
+                r = _random_groove(rng, which, ctx)
+                if r is None:
+                    continue
+                desc, g = r
+                uw = float(g.usable_width)
+                gap = 0.0 if rng.random() < 0.15 else uw * 10 ** rng.uniform(-4, math.log10(0.5))
+                rolls = [_random_roll(rng, which, g)] if rng.random() < 0.25 else ()
+                _one_case(ctx, which, desc, g, gap, lean_lines, lean_expect, full_k=done < 8, cfg=cfg, rolls=rolls)
             done += 1
     except _ImplRaised as ex:
         ctx.violation("pass-hook-raises", str(ex)[:300], {"note": "raised while reading members of a fresh pass"})
@@ -1294,8 +1576,10 @@ def replay(ctx, data):
     r = data.get("replay", data)
     if "groove" not in r:
         return
-    g = _build_groove(r["groove"])
-    lines, expect = [], []
-    late = {k: r[k] for k in ("given", "looked_at", "order")} if r.get("life_cycle") == LATE else None
-    prov = {k: r[k] for k in ("given", "provenance", "order")} if r.get("provenance") and r.get("order") else None
-    _one_case(ctx, r["pass"], r["groove"], g, r["gap"], lines, expect, pre=r.get("read_before"), late=late, prov=prov)
+    cfg = r.get("config") or None
+    with _config(cfg):
+        g = _build_groove(r["groove"])
+        lines, expect = [], []
+        late = {k: r[k] for k in ("given", "looked_at", "order")} if r.get("life_cycle") == LATE else None
+        prov = {k: r[k] for k in ("given", "provenance", "order")} if r.get("provenance") and r.get("order") else None
+        _one_case(ctx, r["pass"], r["groove"], g, r["gap"], lines, expect, pre=r.get("read_before"), late=late, prov=prov, cfg=cfg)
